@@ -24,19 +24,20 @@ Definition fref_tot (k : ty) : ty := match fref k with Some r => r | None => TRe
 (* ctx._refers_to(r, k): the stored reference r evaluates to k (Build.evaluate = refs.evaluate) *)
 Definition names_ty (r k : ty) : bool := ty_eqb (evaluate r) k.
 
-(* C16's model at the key family (ty, ty_eqb, is_ref, unwrap, fref_tot, names_ty), values = routines *)
+(* C16's model at the key family (ty, ty_eqb, is_ref, unwrap E, fref_tot, names_ty), values = routines.
+   inspection.unwrap goes through the alias objects of the environment E (Build.unwrap), so the family is per environment. *)
 Definition cst : Type := Ctx.st ty routine.
 Definition cop : Type := Ctx.op ty routine.
 Definition cout : Type := Ctx.out routine.
 Definition cfind : cst -> ty -> option routine := Ctx.find ty routine ty_eqb.
 Definition cset : cst -> ty -> routine -> cst := Ctx.set ty routine ty_eqb.
-Definition cgetitem : nat -> cst -> ty -> Ctx.res routine * cst := Ctx.getitem ty routine ty_eqb is_ref unwrap fref_tot names_ty.
-Definition cstep : nat -> cst -> cop -> cout * cst := Ctx.step ty routine ty_eqb is_ref unwrap fref_tot names_ty.
-Definition crun : nat -> cst -> list cop -> list cout := Ctx.run ty routine ty_eqb is_ref unwrap fref_tot names_ty.
-Definition cspec_lookup : cst -> ty -> option routine := Ctx.spec_lookup ty routine ty_eqb is_ref unwrap fref_tot names_ty.
-Definition cspec_run : cst -> list cop -> list cout := Ctx.spec_run ty routine ty_eqb is_ref unwrap fref_tot names_ty.
-Definition cspec_final : cst -> list cop -> cst := Ctx.spec_final ty routine ty_eqb is_ref unwrap fref_tot names_ty.
-Definition cops_ok : cst -> list cop -> bool := Ctx.ops_ok ty routine ty_eqb is_ref unwrap fref_tot names_ty.
+Definition cgetitem (E : env) : nat -> cst -> ty -> Ctx.res routine * cst := Ctx.getitem ty routine ty_eqb is_ref (unwrap E) fref_tot names_ty.
+Definition cstep (E : env) : nat -> cst -> cop -> cout * cst := Ctx.step ty routine ty_eqb is_ref (unwrap E) fref_tot names_ty.
+Definition crun (E : env) : nat -> cst -> list cop -> list cout := Ctx.run ty routine ty_eqb is_ref (unwrap E) fref_tot names_ty.
+Definition cspec_lookup (E : env) : cst -> ty -> option routine := Ctx.spec_lookup ty routine ty_eqb is_ref (unwrap E) fref_tot names_ty.
+Definition cspec_run (E : env) : cst -> list cop -> list cout := Ctx.spec_run ty routine ty_eqb is_ref (unwrap E) fref_tot names_ty.
+Definition cspec_final (E : env) : cst -> list cop -> cst := Ctx.spec_final ty routine ty_eqb is_ref (unwrap E) fref_tot names_ty.
+Definition cops_ok (E : env) : cst -> list cop -> bool := Ctx.ops_ok ty routine ty_eqb is_ref (unwrap E) fref_tot names_ty.
 
 (* ---- translation of states and histories ---- *)
 (* a Build context (newest binding first, older bindings of a key shadowed) as the dict it denotes *)
